@@ -24,6 +24,12 @@ Example eq_implies_equal_hash_nonvacuous_float_keys :
   ex_fa <> ex_fb /\ v_wf ex_fa = true /\ v_wf ex_fb = true /\ v_cmp table_cmp_by_lookup ex_fa ex_fb = Some 0%Z.
 Proof. exact HashProofs.ex_float_keys_nonvacuous. Qed.
 
+(* the model's hashes are 64-bit words (what the C type uint64_t holds) *)
+Theorem hash_is_a_64_bit_word : forall a : value,
+  v_wf a = true -> (v_hash hash_m hash_r hash_seed float_hash_normalises_zero a < M64)%N.
+Proof. exact (HashProofs.v_hash_lt hash_m hash_r hash_seed). Qed.
+Print Assumptions hash_is_a_64_bit_word.
+
 (* the Float clause on bit patterns: Float_Cmp = 0 on non-NaN doubles only for identical doubles
    or two zeros (Flocq binary64 subtraction, round to nearest even) *)
 Theorem float_cmp_zero_only_for_equal : forall a b : N,
